@@ -233,3 +233,50 @@ func stdReturn(id [20]byte, nodes []SimContact, token *string) BV {
 	}
 	return BV{Kind: 'd', D: d}
 }
+
+// friendlyNet adds n well-behaved simulated nodes (addresses 51.x.y.z:5000+i, IDs derived from i):
+// every query is answered with the node's ID; find_node / get_peers / get replies name up to 8 of the
+// other nodes and carry a token; silent(i) lets a scenario mute individual nodes.
+type friendly struct {
+	Addrs []*net.UDPAddr
+	IDs   [][20]byte
+}
+
+func friendlyAddr(i int) *net.UDPAddr {
+	return &net.UDPAddr{IP: net.IP{51, 3, byte(i / 200), byte(1 + i%200)}, Port: 5000 + i}
+}
+
+func friendlyID(i int) (id [20]byte) {
+	id[0], id[1], id[2], id[19] = byte(37*i+1), byte(i), 0xf1, byte(i)
+	return
+}
+
+func addFriendlyNet(n1 *SimNet, n int, silent func(i int, q SimQuery) bool) *friendly {
+	f := &friendly{}
+	for i := 0; i < n; i++ {
+		f.Addrs = append(f.Addrs, friendlyAddr(i))
+		f.IDs = append(f.IDs, friendlyID(i))
+	}
+	for i := 0; i < n; i++ {
+		i := i
+		n1.Add(&SimPeer{Addr: f.Addrs[i], ID: f.IDs[i], Handle: func(q SimQuery) []SimReply {
+			if silent != nil && silent(i, q) {
+				return nil
+			}
+			t := []byte(q.T)
+			switch q.Method {
+			case "find_node", "get_peers", "get":
+				var cs []SimContact
+				for j := 1; j <= 8 && j < n; j++ {
+					k := (i + j) % n
+					cs = append(cs, SimContact{f.IDs[k], f.Addrs[k]})
+				}
+				tok := fmt.Sprintf("ftok%d", i)
+				return []SimReply{{Data: mkResponse(t, stdReturn(f.IDs[i], cs, &tok))}}
+			default:
+				return []SimReply{{Data: mkResponse(t, stdReturn(f.IDs[i], nil, nil))}}
+			}
+		}})
+	}
+	return f
+}
